@@ -30,7 +30,7 @@ def parallel_map(fn, items):
     return _parallel_map(fn, items, workers=w or None)
 
 DRIVERS = ["drv_opts"]
-GENERATED = ["OptionsTables", "GitParams"]
+GENERATED = ["OptionsTables", "GitParams", "ThemeChoice"]
 
 # ------------------------------------------------------------------ probe options
 # kind: how show-config renders the value. Only options that `set_options!` assigns through
@@ -252,6 +252,8 @@ def impl_invocation(cfg, workdir):
         env["DELTA_NAVIGATE"] = "1"
     if raw_params(cfg) is not None:
         env["GIT_CONFIG_PARAMETERS"] = raw_params(cfg)
+    if cfg.get("bat_theme") is not None:
+        env["BAT_THEME"] = cfg["bat_theme"]
     return args, env
 
 
@@ -1349,6 +1351,143 @@ def crosscheck_params_with_git(rep, cfgs):
     rep.notes["git_params_crosscheck"] = f"{n} entry lists checked against {ver.strip()}"
 
 
+# ------------------------------------------------------------------ family (10): theme and colour mode (T11 (ii))
+# Observed through `--show-config`: `syntax-theme` (the theme in use) and the built-in default of `minus-style`
+# (`normal 224` in light mode, `normal 52` in dark mode); a fatal error is exit status 1 with the message below.
+THEME_FATAL = "--light and --dark cannot be used together."
+O_LIGHT_THEMES = ["Catppuccin Latte", "GitHub", "gruvbox-light", "gruvbox-white", "Monokai Extended Light", "OneHalfLight",
+                  "Solarized (light)"]          # manual / --list-syntax-themes: the themes delta treats as light
+O_DEFAULT_THEME = {"light": "GitHub", "dark": "Monokai Extended"}
+
+
+def theme_cfg(cli_mode, light_src, dark_src, cli_theme, git_theme, bat):
+    c = base_cfg()
+    c["probes"] = ["syntax-theme", "minus-style"]
+    c["cli"] = [["detect-dark-light", "never"]]
+    if cli_mode in ("light", "both"):
+        c["cli"].append(["light", None])
+    if cli_mode in ("dark", "both"):
+        c["cli"].append(["dark", None])
+    if cli_theme:
+        c["cli"].append(["syntax-theme", cli_theme])
+    sec = {}
+    for key, src in (("light", light_src), ("dark", dark_src), ("syntax-theme", git_theme)):
+        if not src:
+            continue
+        where, v = src
+        if where == "main":
+            c["config"]["main"].append([key, v])
+        elif where == "params":
+            c["params"].append([key, v])
+        else:
+            sec.setdefault(where, []).append((key, v))
+    for name in sorted(sec):
+        add_section(c, name, sec[name])
+    if sec:
+        c["features"] = " ".join(sorted(sec))        # the last listed feature has the highest priority
+    c["bat_theme"] = bat
+    c["family"] = f"theme/{cli_mode}/{light_src}/{dark_src}/{cli_theme}/{git_theme}/{bat}"
+    return c
+
+
+def family_theme(thorough, rng):
+    cli_modes = [None, "light", "dark", "both"]
+    lights = [None, ("main", "true"), ("a", "true"), ("main", "false"), ("params", "yes")]
+    darks = [None, ("main", "true"), ("a", "true"), ("b", "true")]
+    cli_themes = [None, "Nord", "GitHub", "none"]
+    git_themes = [None, ("main", "OneHalfLight"), ("a", "zenburn"), ("b", "Coldark-Cold"), ("params", "Solarized (light)")]
+    bats = [None, "Monokai Extended Light", "Dracula"]
+    allc = list(itertools.product(cli_modes, lights, darks, cli_themes, git_themes, bats))
+    core = [t for t in allc if sum(x is not None for x in t) <= 2]
+    rest = [t for t in allc if t not in set(core)]
+    picked = core + (rest if thorough else rng.sample(rest, 120))
+    return [theme_cfg(*t) for t in picked]
+
+
+def o_theme(cfg):
+    """The documented outcome (manual "Choosing colors (styles)" / --help of --light, --dark, --syntax-theme, theme.rs
+    module comment): the theme is the first of command line, git config (main section, then enabled features, last
+    listed first), BAT_THEME, else the default of the mode; the mode is given by --light / --dark, else `light` / `dark`
+    of the git config, else (no terminal asked) inferred from the theme, else dark. Both modes at once is an error."""
+    cli = {o: v for o, v in cfg["cli"]}
+    gc = cfg["config"]
+    order = list(reversed(split_ws(cfg["features"] or "")))
+    secs = {n: dict(kvs) for n, kvs in gc["sections"]}
+    main = dict(gc["main"])
+    main.update({k: v for k, v in cfg["params"]})
+
+    def git(key):
+        if key in main:
+            return main[key]
+        for f in order:
+            if key in secs.get(f, {}):
+                return secs[f][key]
+        return None
+    if "light" in cli and "dark" in cli:
+        return "fatal"
+    if "light" in cli or "dark" in cli:
+        light, dark = "light" in cli, "dark" in cli
+    else:
+        light = o_read_bool(git("light")) == "true" if git("light") is not None else False
+        dark = o_read_bool(git("dark")) == "true" if git("dark") is not None else False
+    if light and dark:
+        return "fatal"
+    theme = cli.get("syntax-theme") or git("syntax-theme") or cfg.get("bat_theme")
+    if light or dark:
+        mode = "light" if light else "dark"
+    elif theme is not None:
+        mode = "light" if (theme in O_LIGHT_THEMES or "light" in theme.lower()) else "dark"
+    else:
+        mode = "dark"
+    return mode, (theme if theme is not None else O_DEFAULT_THEME[mode])
+
+
+def evaluate_theme(ctx, rep, cfgs):
+    impl = Impl(ctx)
+    mdl = ctx.model("drv_opts") if ctx.drivers_ok else None
+    bnames = list(O_BUILTIN_NAMES)
+
+    def one(c):
+        args, env = impl_invocation(c, impl.workdir)
+        rc, out, err = ctx.run_delta(args, b"", env=env, cwd=impl.cwd)
+        if rc != 0:
+            return "fatal" if THEME_FATAL in err.decode("utf-8", "replace") else {"__error__": f"rc={rc} {err[-200:]!r}"}
+        v = parse_show_config(out)
+        mode = {"normal 224": "light", "normal 52": "dark"}.get(v.get("minus-style"), "?" + str(v.get("minus-style")))
+        return (mode, v.get("syntax-theme"))
+    outs = parallel_map(one, cfgs)
+    answers = []
+    if mdl:
+        reqs = []
+        for c in cfgs:
+            r = model_request(c, bnames).split(" ")
+            reqs.append(" ".join(["opts.theme"] + r[1:-1] + ["-" if c.get("bat_theme") is None else hx(c["bat_theme"]), "0", "-"]))
+        answers = mdl.ask(reqs)
+    for i, c in enumerate(cfgs):
+        ob = outs[i]
+        rep.count("family:theme")
+        rep.case(key=cfg_key(c), nontrivial=sum(1 for o, _ in c["cli"] if o != "detect-dark-light") + len(c["params"])
+                 + len(c["config"]["main"]) + len(c["config"]["sections"]) + (c.get("bat_theme") is not None) >= 2,
+                 sample=dict(family=c["family"], observed=ob))
+        replay = dict(cfg=c, theme_family=True)
+        if isinstance(ob, dict):
+            rep.violation("delta-failed:theme", "delta --show-config failed: " + ob["__error__"], replay)
+            continue
+        exp = o_theme(c)
+        rep.count("theme:" + ("fatal" if exp == "fatal" else exp[0]))
+        if ob != exp:
+            replay.update(expected=exp, observed=ob)
+            what = "mode" if (ob == "fatal") != (exp == "fatal") or ob[0] != exp[0] else "theme"
+            src = "cli" if any(o in ("light", "dark", "syntax-theme") for o, _ in c["cli"]) else "git" if (
+                c["config"]["main"] or c["config"]["sections"] or c["params"]) else "bat" if c.get("bat_theme") else "default"
+            rep.violation(f"theme-choice:{what}:highest-source-{src}",
+                          f"observed (mode, theme) {ob}, the documented order of the sources gives {exp}", replay)
+        if mdl:
+            a = answers[i].split(" ")
+            mv = "fatal" if a[:2] == ["ok", "fatal"] else (a[3], unhxs(a[4])) if len(a) == 5 and a[0] == "ok" else answers[i]
+            rep.corr_case("opts.theme", mv == ob, dict(cfg=c, impl=ob, model=mv))
+
+
 def random_cfg(rng):
     """thorough tier: a random configuration over the same vocabulary (up to 4 custom nodes)."""
     names = ["a", "b", "c", "d"]
@@ -1779,7 +1918,10 @@ def run(ctx, rep):
                 "reads every value as git does (own reader, cross-checked against the installed git); (9) the text of GIT_CONFIG_PARAMETERS "
                 "itself: -c entries as git writes them in both formats (values with blanks, =, quotes, !, tab / newline, non-ASCII, "
                 "empty, no value; repeated keys; other sections around; keys in another letter case) judged against git's reading, "
-                "texts git never writes and seeded 1-3 character edits of well-formed texts (model against binary). Every configuration "
+                "texts git never writes and seeded 1-3 character edits of well-formed texts (model against binary); (10) theme and colour "
+                "mode: {--light, --dark, both, neither} x light / dark / syntax-theme in [delta] / GIT_CONFIG_PARAMETERS / one of two "
+                "custom features x --syntax-theme x BAT_THEME (all combinations of at most two sources, the others sampled), "
+                "observed through syntax-theme and the default of minus-style; one run each. Every other configuration "
                 "is run in >= 3 fresh processes. non-trivial = at least two sources set a probe, or features are "
                 "enabled, or --no-gitconfig; distinct by configuration hash")
     thorough = not ctx.quick()
@@ -1801,6 +1943,7 @@ def run(ctx, rep):
     crosscheck_with_git(rep)
     crosscheck_params_with_git(rep, cfgs)
     evaluate(ctx, rep, cfgs, ctx.n(3, 6))
+    evaluate_theme(ctx, rep, family_theme(thorough, ctx.rng))
 
 
 def replay(ctx, rep, obj):
@@ -1814,4 +1957,6 @@ def replay(ctx, rep, obj):
     if not cfgs:
         return run(ctx, rep)
     rep.rule = "replay of recorded configuration(s)"
+    if obj.get("case", {}).get("theme_family") or any(c.get("family", "").startswith("theme/") for c in cfgs):
+        return evaluate_theme(ctx, rep, cfgs)
     evaluate(ctx, rep, cfgs, 12)
